@@ -153,6 +153,7 @@ var documentedCopies = map[string]bool{"TransientPublicKey": true, "Signature": 
 func runC08(c *Ctx) {
 	r := c.R
 	c08Authentic(c)
+	c08EveryEntryPoint(c)
 	overwrite := func(buf []byte, mode int) {
 		for i := range buf {
 			switch mode {
@@ -404,4 +405,104 @@ func stableStruct(v interface{}) (ok bool, applicable bool) {
 	scribble(raw)
 	again := reserialise(v)
 	return bytes.Equal(keep, again), true
+}
+
+// c08EveryEntryPoint: the in-scope structures through EVERY exported function that builds one from a
+// byte slice — found by result type in the API table regenerated from the source, not listed by
+// hand (NewLeaseFromBytes, NewDestinationFromBytes, ReadDestinationFromLeaseSet, NewSignature, ...):
+// parse from a buffer, record everything the value reports, overwrite the buffer, look again
+func c08EveryEntryPoint(c *Ctx) {
+	r := c.R
+	const mod = "github.com/go-i2p/common/"
+	// result type -> the parser whose generator produces well-formed encodings of it
+	gens := map[string]string{
+		mod + "certificate.Certificate": "ReadCertificate", mod + "key_certificate.KeyCertificate": "NewKeyCertificate",
+		mod + "keys_and_cert.KeysAndCert": "ReadKeysAndCert", mod + "destination.Destination": "ReadDestination",
+		mod + "router_identity.RouterIdentity": "ReadRouterIdentity", mod + "signature.Signature": "ReadSignature",
+		mod + "offline_signature.OfflineSignature": "ReadOfflineSignature", mod + "lease.Lease": "ReadLease",
+		mod + "lease.Lease2": "ReadLease2", mod + "lease_set.LeaseSet": "ReadLeaseSet",
+		mod + "encrypted_leaseset.EncryptedLeaseSet": "ReadEncryptedLeaseSet",
+	}
+	byName := map[string]*Parser{}
+	for i := range parsers {
+		byName[parsers[i].Name] = &parsers[i]
+	}
+	var names []string
+	for name := range apiByteFuncShape {
+		names = append(names, name)
+	}
+	sort.Strings(names)
+	for _, name := range names {
+		shape := apiByteFuncShape[name]
+		arrow := strings.Index(shape, "-> ")
+		if arrow < 0 {
+			continue
+		}
+		results := strings.Fields(shape[arrow+3:])
+		if len(results) < 2 || results[len(results)-1] != "error" {
+			continue
+		}
+		p := byName[gens[results[0]]]
+		if p == nil || p.Gen == nil {
+			continue
+		}
+		f := apiByteFuncResults[name]
+		for k := 0; k < c.N(12, 300); k++ {
+			w := p.Gen(r)
+			if k%3 == 1 {
+				w = cat(w, r.Bytes(1+r.Intn(20)))
+			}
+			n := []int{7, 7, 11, 0, 1}[k%5]
+			if p.Extra != nil {
+				if ex := p.Extra(r); len(ex) > 0 {
+					n = argInt(ex[0])
+				}
+			}
+			buf := cp(w)
+			var res []interface{}
+			func() {
+				defer func() { _ = recover() }()
+				res = f(buf, n)
+			}()
+			if len(res) < 2 {
+				continue
+			}
+			if e, isErr := res[len(res)-1].(error); isErr && e != nil {
+				continue
+			}
+			v := reflect.ValueOf(res[0])
+			if !v.IsValid() || (v.Kind() == reflect.Ptr && v.IsNil()) {
+				continue
+			}
+			if v.Kind() != reflect.Ptr {
+				pv := reflect.New(v.Type())
+				pv.Elem().Set(v)
+				v = pv
+			}
+			before := snapshot(v.Interface())
+			bytesBefore := reserialise(v.Interface())
+			for i := range buf {
+				switch k % 3 {
+				case 0:
+					buf[i] = ^buf[i]
+				case 1:
+					buf[i] = 0xff
+				default:
+					buf[i] = byte(r.U64())
+				}
+			}
+			after := snapshot(v.Interface())
+			var changed []string
+			for m, val := range before {
+				if after[m] != val {
+					changed = append(changed, m)
+				}
+			}
+			sort.Strings(changed)
+			args := [][]byte{w, i64(int64(n))}
+			c.Check("value_independent_of_input_buffer", len(changed) == 0, name, args, "",
+				fmt.Sprintf("after overwriting the input buffer these accessors changed: %v", changed))
+			c.Check("serialisation_independent_of_input_buffer", bytes.Equal(reserialise(v.Interface()), bytesBefore), name, args, "", "the serialisation follows the caller's buffer")
+		}
+	}
 }
